@@ -6,7 +6,7 @@ fields is fine."""
 import collections
 import json
 import os
-from astu import C, ctxt, gt_pair, eq_const, strip, strip_all, walk, short, functions_by
+from astu import C, ctxt, gt_pair, eq_const, reach, reach_txt, ctext, strip, strip_all, walk, short, functions_by
 from vlib.core import ob, VERIF
 
 NAMES = ("is_empty", "isEmpty")
